@@ -228,10 +228,14 @@ Proof.
     bind rt (fun o => match o with Some d => Ok d | None => Raise E_PendulumException end)
     = lift (bind rd (fun o => match o with Some d => Ok d | None => Raise E_PendulumException end)) 0 z).
   { intros rt rd ->. unfold lift_opt, lift. destruct rd as [[q|]|e]; reflexivity. }
+  (* the `except OverflowError: dt = None` of nth_of commutes with attaching time and zone *)
+  assert (C : forall (rt : result (option pdt)) (rd : result (option pdate)), rt = lift_opt rd z ->
+    overflow_to_none rt = lift_opt (overflow_to_none rd) z).
+  { intros rt rd ->. unfold lift_opt. destruct rd as [[q|]|e]; try reflexivity. destruct e; reflexivity. }
   apply G.
-  destruct (u =? U_MONTH); [now apply t_nth_of_month_lift|].
-  destruct (u =? U_QUARTER); [now apply t_nth_of_quarter_lift|].
-  destruct (u =? U_YEAR); [now apply t_nth_of_year_lift|reflexivity].
+  destruct (u =? U_MONTH); [apply C; now apply t_nth_of_month_lift|].
+  destruct (u =? U_QUARTER); [apply C; now apply t_nth_of_quarter_lift|].
+  destruct (u =? U_YEAR); [apply C; now apply t_nth_of_year_lift|reflexivity].
 Qed.
 
 (* consequences: time of day and zone of every successful result *)
